@@ -404,6 +404,13 @@ impl World {
                         ));
                     }
                 }
+                // "the plain form panics with that error's message"
+                if let Outcome::Panic(PanicKind::Reserve, msg) = &real {
+                    ctx.eval("C05.panic_message");
+                    if msg != crate::outcome::RESERVE_MSG {
+                        f.push(Failure::new("C05.panic_message", format!("{} panicked with {msg:?}, which is not the error's own message {:?}", op.name(), crate::outcome::RESERVE_MSG)));
+                    }
+                }
                 // FromStr::from_str / str::parse is a fallible form too: its only error is ReserveError
                 let fallible = (try_flag(op) && has_try_form(op)) || matches!(op, Op::FromText { via: Via::Parse | Via::TryToLeanString, .. });
                 if matches!(real, Outcome::Panic(..)) && fallible {
